@@ -645,6 +645,13 @@ class QueueWorld(object):
         def backoff(envelope, attempts):
             wait = fn(envelope, attempts)
             self.ev('backoff', tuple(envelope.recipients), attempts, wait)
+            q0 = self.last_incr.get(gevent.getcurrent())
+            l0 = self.ledger.get(q0)
+            if l0 is not None and not l0.get('prestored') and attempts != l0['attempts']:
+                # the policy decides from the number of attempts made: asked about another number it grants retries it never
+                # meant to grant (or stops too early)
+                self.flag('backoff-asked-about-wrong-attempt-number', 'message %s: %d attempt(s) made, the backoff policy was asked about attempt %r'
+                          % (q0, l0['attempts'], attempts))
             if wait is not None:
                 # the policy has chosen the next attempt time: from now on an attempt before it is early,
                 # whether or not the new timestamp has reached storage yet
